@@ -76,7 +76,7 @@ def job_main(scen_name, job, rec_path, deadline):
             os._exit(8)
 
 
-_SRC = os.path.realpath('/repo/src/quantity') + os.sep
+_SRC = os.path.realpath(os.path.join(os.environ.get('QUANTITY_SRC') or '/repo/src', 'quantity')) + os.sep
 
 
 def _start_monitor(funcs):
@@ -478,7 +478,8 @@ def _main(prop, tier, seed, scen_name, scratch, t0, only):
         ok = bool(r and r['status'] == 'ok' and
                   any((not o['ok']) and o['key'] == key for o in r['obls']))
         by_key.setdefault(key, []).append((ok, tid, ji, rec, ob, r))
-    os.makedirs(os.path.join(ROOT, 'replays'), exist_ok=True)
+    repdir = os.environ.get('SYMX_REPLAY_DIR') or os.path.join(ROOT, 'replays')
+    os.makedirs(repdir, exist_ok=True)
     # counterexamples that did not reproduce on the C build: once more on the Python build
     retry = [x for key, lst in by_key.items() if not any(y[0] for y in lst) for x in lst]
     if retry:
@@ -516,7 +517,7 @@ def _main(prop, tier, seed, scen_name, scratch, t0, only):
                 'occurrences': len(viol[key])}
         h = hashlib.sha1(json.dumps([key, task['fn'], task['cfg'], task['model']],
                                     sort_keys=True).encode()).hexdigest()[:10]
-        path = os.path.join(ROOT, 'replays', '%s-%s.json' % (prop, h))
+        path = os.path.join(repdir, '%s-%s.json' % (prop, h))
         with open(path, 'w') as f:
             json.dump(task, f, indent=1, default=str)
         violations.append((key, path))
@@ -565,8 +566,9 @@ def _main(prop, tier, seed, scen_name, scratch, t0, only):
         'wall_s': round(wall, 2),
         'violations': len(violations),
     }
-    os.makedirs(os.path.join(ROOT, 'evidence'), exist_ok=True)
-    with open(os.path.join(ROOT, 'evidence', '%s.json' % prop), 'w') as f:
+    evdir = os.environ.get('SYMX_EVIDENCE_DIR') or os.path.join(ROOT, 'evidence')
+    os.makedirs(evdir, exist_ok=True)
+    with open(os.path.join(evdir, '%s.json' % prop), 'w') as f:
         json.dump(evidence, f, indent=1, default=str)
 
     for k, v in known_hits.items():
